@@ -36,6 +36,15 @@ def confirm(mdir):
             return {"error": "worktree: " + out}
         patch = os.path.abspath(os.path.join(mdir, "patch.diff"))
         rc, out = sh("git apply %s" % patch, cwd=wt)
+        if rc:  # the tree moved on since the change was written: fall back to a three-way merge
+            rc, out = sh("git apply --3way %s && git reset -q" % patch, cwd=wt)
+            res["applied_3way"] = rc == 0
+            if rc == 0:
+                # keep a patch that applies to the current tree
+                rc2, diff = sh("git diff", cwd=wt)
+                patch = os.path.join(tempfile.mkdtemp(prefix="mevp-"), "patch.diff")
+                open(patch, "w").write(diff)
+                res["rebased_patch"] = patch
         res["applies"] = rc == 0
         if rc:
             res["apply_err"] = out[-400:]
@@ -79,7 +88,7 @@ def main():
         os.rmdir(wt)
         try:
             sh("git -C /repo worktree add -q --detach %s HEAD" % wt)
-            sh("git apply %s" % os.path.abspath(os.path.join(mdir, "patch.diff")), cwd=wt)
+            sh("git apply %s" % (c.get("rebased_patch") or os.path.abspath(os.path.join(mdir, "patch.diff"))), cwd=wt)
             for p in props:
                 for s in seeds:
                     rc, o = sh("cd /verif && VERIF_REPO=%s VERIF_OUT_DIR=%s ./check.py %s --tier %s --seed %d" % (wt, wt + "-out", p, tier, s), timeout=3600)
@@ -112,8 +121,8 @@ def main():
         kid = sys.argv[sys.argv.index("--keep") + 1]
         dst = os.path.join("/verif/seeded", kid)
         os.makedirs(dst, exist_ok=True)
-        for f in ("patch.diff", "demo_test.go"):
-            shutil.copy(os.path.join(mdir, f), dst)
+        shutil.copy(os.path.join(mdir, "demo_test.go"), dst)
+        shutil.copy(c.get("rebased_patch") or os.path.join(mdir, "patch.diff"), os.path.join(dst, "patch.diff"))
         notes = open(os.path.join(mdir, "notes.md")).read() if os.path.exists(os.path.join(mdir, "notes.md")) else ""
         head = subprocess.check_output(["git", "-C", "/repo", "log", "--format=%h", "-1"], text=True).strip()
         meta = {"id": kid, "breaks_property": props[0], "needs_to_manifest": notes.strip(),
